@@ -265,3 +265,17 @@ Lemma prefmix_initial_point_and_outputs Pk N rho tau g theta R :
   (~ N == 0 -> pm_out_S Pk N rho (Phi_pm Pk N tau g theta R) == N * ((1 - rho) * pk_psi Pk theta) /\
                pm_out_R N (Phi_pm Pk N tau g theta R) == R).
 Proof. split; [apply pm_IC_on_subspace|apply pm_outputs_agree]. Qed.
+
+(* the returned series of the two discrete models coincide, written out *)
+Lemma prefmix_discrete_outputs (Pk : pkdict) rho p N :
+  ~ p == 0 -> ~ 1 - rho == 0 -> ~ pk_mean Pk == 0 -> dsum Pk (fun _ q => q) == 1 -> forall n,
+  let st := pmd_loop N rho p Pk (uncorrelated Pk) n in
+  let e := EBCM_discrete_loop 0 N (fun x => (1 - rho) * pk_psi Pk x) p 0 (1 - rho) (fun x => (1 - rho) * pk_psiP Pk x) n in
+  pd_R st == snd (fst (fst e)) /\ pd_S st == snd (fst e) /\ pd_I st == snd e /\
+  forall k, In k (map fst Pk) -> plookup k (pd_theta st) == fst (fst (fst e)).
+Proof.
+  intros Hp Hr Hm Hone n. cbv zeta.
+  pose proof (prefmix_uncorrelated_discrete Pk rho p N Hp Hr Hm Hone n) as H. unfold pmd_rel in H.
+  destruct (EBCM_discrete_loop 0 N (fun x => (1 - rho) * pk_psi Pk x) p 0 (1 - rho) (fun x => (1 - rho) * pk_psiP Pk x) n) as [[[th R0] S0] I0].
+  cbn [fst snd]. destruct H as (Hth & HR & HS & HI & _). repeat split; assumption.
+Qed.
